@@ -43,8 +43,6 @@ rem_wide!(c02_k8_rem_wide_3_d2, 3, u64, Uint::<3>::new([Limb(shaped_word(2)), Li
 rem_wide!(c02_k8_rem_wide_2_d2, 2, u64, Uint::<2>::new([Limb(shaped_word(3)), Limb(kani::any())]), 16, 3);
 //@ name=c02_k8_rem_wide_2_d1 prop=C02,C07,C15,C11 tier=quick profile=k8 funcs="Uint::rem_wide_vartime,rem_limb_with_reciprocal_wide" bound="u8 words, Uint<2> pair by a single-limb-valued divisor p=[free,0]: n=q*p+r, q a 24-bit value with 2 free low bits, r within 8 of 0 or p" free_bits=16
 rem_wide!(c02_k8_rem_wide_2_d1, 2, u64, Uint::<2>::new([Limb(kani::any()), Limb(0)]), 24, 3);
-//@ name=c02_k8_rem_wide_4_d3 prop=C02,C07,C15,C11 tier=thorough profile=k8 funcs="Uint::rem_wide_vartime,div3by2" bound="u8 words, Uint<4> pair by a 3-limb divisor p=[S(1),S(1),free,0]: n=q*p+r (n < 2^64), r within 2 of 0 or p" free_bits=16
-rem_wide!(c02_k8_rem_wide_4_d3, 4, u128, Uint::<4>::new([Limb(shaped_word(1)), Limb(shaped_word(1)), Limb(kani::any()), Limb(0)]), 30, 1);
 
 //@ prop=C07,C15,C11 tier=quick profile=k8 funcs="Uint::mul_mod_vartime,MulMod for Uint,Uint::mul_mod" bound="u8 words, Uint<3>: odd p=[S(1)|1,S(1),S(1)^sign], a limbs S(1), b=[x,y,x] with x,y S(1), < p: mul_mod_vartime = MulMod = rem_wide_vartime(split_mul) and q*p + r == a*b" free_bits=16 core=C15
 #[kani::proof]
